@@ -11,6 +11,7 @@ import (
 	"go/format"
 	"go/parser"
 	"go/token"
+	"math/rand"
 	"reflect"
 	"regexp"
 	"sort"
@@ -181,7 +182,7 @@ func resRec(raw, fm renderResult) Rec {
 	return Rec{"status": raw.status, "raw": string(raw.out), "fstatus": fm.status, "out": string(fm.out)}
 }
 
-var identRe = regexp.MustCompile(`x[0-9]`)
+var identRe = regexp.MustCompile(`x[0-9]+`)
 
 func listProjection(raw []byte, c *Case) (idents []string, nsep int, framed bool) {
 	idents = []string{}
@@ -647,6 +648,52 @@ func runC16Mutations(tw *TraceWriter, id0 int) int {
 	return n
 }
 
+// runC16Big: LARGE Dicts - dozens and hundreds of pairs, keys that are long and share a long prefix (routes, URLs, paths).
+func runC16Big(tw *TraceWriter, id int) int {
+	n := 0
+	for _, np := range []int{40, 250, 700} {
+		n++
+		tw.Traces++
+		keys := make([]string, np)
+		for i := range keys {
+			keys[i] = fmt.Sprintf("a/route/with/a/very/long/common/prefix/that/every/key/of/the/table/shares/%03d", i)
+		}
+		mk := func(noformat bool, seed int64) *jen.File {
+			d := jen.Dict{}
+			for _, i := range rand.New(rand.NewSource(seed)).Perm(np) {
+				d[jen.Lit(keys[i])] = jen.Lit(1000 + i)
+			}
+			f := jen.NewFile("main")
+			f.NoFormat = noformat
+			f.Var().Id("_").Op("=").Id("T").Values(d)
+			return f
+		}
+		hashes := map[string]bool{}
+		var fv renderResult
+		for k := 0; k < 6; k++ {
+			fv = renderFile(mk(false, int64(k)))
+			hashes[fv.status+Hash(fv.out)] = true
+		}
+		rv := renderFile(mk(true, 99))
+		pairs, keyTexts, multiline, parsed := dictProjection(fv.out)
+		expected := []string{}
+		items := []*Node{}
+		order := []int{}
+		for i := 0; i < np; i++ {
+			expected = append(expected, strconv.Quote(keys[i])+" : "+strconv.Itoa(1000+i))
+			items = append(items, &Node{K: "pair", Items: []*Node{stm(lit(strconv.Quote(keys[i]))), stm(lit(strconv.Itoa(1000 + i)))}})
+			order = append(order, i+1)
+		}
+		otree := stm(kwn("var"), idn("_"), opn("="), idn("T"), grp("values", &Node{K: "dict", Items: items, Order: order}))
+		tw.Emit(Rec{"ev": "c16", "id": id + n, "alias": "", "pairs": [][]string{{"big", fmt.Sprint(np)}}, "live": np, "known": "",
+			"otree": otree, "order1": []int{},
+			"rv": resRec(rv, fv), "expected": expected, "got": pairs, "parsed": parsed,
+			"sorted": sort.StringsAreSorted(keyTexts), "multiline": multiline, "nhash": len(hashes), "norders": 1})
+		tw.Distinct("nontrivial_cases", fmt.Sprint("big", np))
+	}
+	return n
+}
+
 func cmdCases(args []string) {
 	// usage: cases <out.ndjson> <stats.json> <cases.ndjson>... [--repeats n]
 	tw := NewTraceWriter(args[0])
@@ -676,6 +723,7 @@ func cmdCases(args []string) {
 				if !mutDone {
 					mutDone = true
 					id += runC16Mutations(tw, id)
+					id += runC16Big(tw, id)
 				}
 				runC16(tw, id, &c, repeats)
 			case "c15":
